@@ -145,6 +145,8 @@ class C01(Prop):
         core.tie_run(stats, "stream", ["gen-e2e", seed, 400 if th else 60, "FW"], self.nontrivial, cmp)
         # the declared WebSocket maximum (and 16 MiB + 1, above the WS library's default frame limit), both directions: delivered intact
         core.tie_run(stats, "stream", ["gen-sizes", tier, "W"], lambda c, t: True, cmp)
+        # two senders on one endpoint (the send lock): the per-connection sequence is an interleaving of whole messages
+        core.tie_run(stats, "stream", ["gen-mt", seed + 3, 2, "F"], lambda c, t: True, cmp)
         if th:
             core.tie_run(stats, "stream", ["gen-e2e", seed + 1, 40, "FW", "big"], self.nontrivial, cmp)
 
@@ -550,6 +552,8 @@ class C16(Prop):
         core.tie_run(stats, "vq", ["gen-conc", seed + 5, 5000 if tier == "thorough" else 600], self.nontrivial, cmp)
         # forced through the sync point: a timer expires while the receiver sits between its expiry test and its sleep
         core.tie_run(stats, "vq", ["gen-race"], self.nontrivial, cmp)
+        # the expiry wake-up and a cancel command ready together: None only after the whole timeout
+        core.tie_run(stats, "vq", ["gen-expirerace", 4000 if tier == "thorough" else 1000], self.nontrivial, cmp)
 
     def search(self, tier, seed):
         st = core.Stats()
